@@ -13,7 +13,11 @@ case = {"keep": int, "cycleP": ticks, "fsize": bytes, "flushP": ticks (>= 8), "r
         "fail_rename": None | N        fault injection: the N-th os.rename call of the run raises OSError
         "fail_open": None | J          fault injection: the J-th ocfn(path, 'w+') (creation of the new main file
                                        in Log.cycle) raises IOError; an exception leaving logger.runner.send is
-                                       recorded in result["surfaced"] and ends the run}
+                                       recorded in result["surfaced"] and ends the run
+        "create_level": None | "os.open"  with fail_open J: the fault is injected one level lower and located by
+                                       what happened on the disk, not by counting ocfn calls: once the J-th
+                                       os.rename(main, copy01) has SUCCEEDED, the next os.open of the main path
+                                       raises OSError(EMFILE) -- exactly once (transient: every later open works)}
 op   = ["tick", d] | [ctl, n, wants]   ctl = start|run|stop; n = elements queued on a streak log before the
                                        control; wants[j] = update the share of update/change log j first
 time unit = 1/8 s.
@@ -142,6 +146,10 @@ class Spy(object):
         self.fail_rename = None        # the N-th os.rename call raises OSError (injected fault)
         self.fail_open = None          # the J-th ocfn(.., 'w+') raises IOError (injected fault)
         self.opens = 0
+        self.fail_create = None        # after the J-th successful rename of a main file: its next os.open raises once
+        self.main_renames = 0
+        self.armed = None              # abspath of the main file whose next os.open fails
+        self.fired = 0                 # injected os.open failures (0 or 1)
         self.surfaced = None           # {"op": k, "exc": name, "nw_before": [...]} when an exception left the runner
         self.overwrites = []           # renames that overwrote a NON-oldest copy holding records: [log, name, ids]
         self.legit_dropped = None      # per log: highest record id discarded by overwriting the OLDEST copy
@@ -206,7 +214,7 @@ def run_proc(case, ops, po, prefix, t0, spy, crash_at=None):
 
 def install_spies(spy):
     from ioflo.base import logging
-    real_rename, real_cycle = os.rename, logging.Log.cycle
+    real_rename, real_cycle, real_osopen = os.rename, logging.Log.cycle, os.open
     real_lflush, real_gflush = logging.Log.flush, logging.Logger.flush
 
     def note(line):
@@ -268,6 +276,9 @@ def install_spies(spy):
                     break
             spy.rot_at[j].append(spy.nw[j])
             note("R %d %d" % (j, spy.nw[j]))
+            spy.main_renames += 1
+            if spy.fail_create is not None and spy.main_renames == spy.fail_create and not spy.fired:
+                spy.armed = os.path.abspath(a)
         if spy.crash_rename is not None and spy.renames == spy.crash_rename and spy.when == "after":
             os._exit(0)
 
@@ -289,12 +300,21 @@ def install_spies(spy):
                 raise IOError(24, "injected open failure", filename)
         return real_ocfn(filename, openMode, binary)
 
+    def osopen(path, flags, *pa, **kwa):
+        if spy.armed is not None and isinstance(path, str) and os.path.abspath(path) == spy.armed:
+            spy.armed = None
+            spy.fired += 1
+            raise OSError(24, "injected: too many open files", path)
+        return real_osopen(path, flags, *pa, **kwa)
+
     os.rename, logging.Log.cycle = rename, cycle
+    os.open = osopen
     logging.ocfn = ocfn
     logging.Log.flush, logging.Logger.flush = lflush, gflush
 
     def undo():
         os.rename, logging.Log.cycle = real_rename, real_cycle
+        os.open = real_osopen
         logging.ocfn = real_ocfn
         logging.Log.flush, logging.Logger.flush = real_lflush, real_gflush
     return undo
@@ -356,7 +376,10 @@ def run_case(case, workdir, child=False):
     spy.keep = case["keep"]
     spy.legit_dropped = [-1] * len(rules)
     spy.fail_rename = case.get("fail_rename")
-    spy.fail_open = case.get("fail_open")
+    if case.get("create_level") == "os.open":
+        spy.fail_create = case.get("fail_open")
+    else:
+        spy.fail_open = case.get("fail_open")
     undo = install_spies(spy)
     pl = plan(case)
     try:
@@ -376,7 +399,7 @@ def run_case(case, workdir, child=False):
     finally:
         undo()
     return {"files": read_files(case, prefix), "sizes": sizes_of(pl), "hsz": HSZ, "nwritten": list(spy.nw),
-            "surfaced": spy.surfaced, "opens": spy.opens,
+            "surfaced": spy.surfaced, "opens": spy.opens, "fired": spy.fired,
             "spy": {"flushed": spy.flushed, "cycles": spy.cycles, "rot_at": spy.rot_at,
                     "overwrites": spy.overwrites, "legit_dropped": spy.legit_dropped, "renames": spy.renames}}
 
